@@ -346,11 +346,13 @@ def check(repo, run, tier):
     g(r5, repo, run)
     g(unitrules.list_operator_init, repo, run, 'C16.R6')
     g(unitrules.remove_node_table, repo, run, 'C16.R7')
+    g(unitrules.tag_spec, repo, run, 'C16.R1', ['!append', '!extend', '!prev', '!clear'])
     g.done()
 
 
 def mutants(repo):
     return [
+        Mutant('clear-tag-builds-plain-node', lambda r: in_func(r, 'yaml._clear_constructor', "_make_node(loader, node, node_type=ClearNode)", "_make_node(loader, node)"), ['C16.R1']),
         Mutant('remove-node-strict-lookup', lambda r: in_func(r, 'ComposedNode.ayns._remove_node', "names=True, incomplete=None)", "names=True)"), ['C16.R7']),
         Mutant('append-wraps-sequences', lambda r: in_func(r, 'AppendNode.__init__', "if not isinstance(value, Sequence) or isinstance(value, str) or isinstance(value, bytes):", "if not (not isinstance(value, Sequence) or isinstance(value, str) or isinstance(value, bytes)):"), ['C16.R6']),
         Mutant('extend-does-not-detach', lambda r: in_func(r, 'ExtendNode.ayns.on_premerge_impl', "            into.ayns.remove_node(path)\n", ""), ['C16.R1']),
